@@ -470,3 +470,17 @@ Proof.
     inversion S; subst; f_equal;
     destruct Cx as [[P Q]|P]; cbn in *; congruence.
 Qed.
+
+(** ** a wire message on whose header Validate panics (audit follow-up) *)
+Lemma wire_validate_panic_is_rejected (val : hdr -> valres) (ver : hdr -> verres) (w : waitres) (h : hdr) :
+  val h = ValPanic ->
+  verify_message val ver w (Msg VdNone (DecOk h)) = VmR SReject VdNone None /\
+  handle_message val ver w (Msg VdNone (DecOk h)) = Eff None false true false.
+Proof.
+  intros Hv. unfold handle_message, verify_message, verify_body, extract_header. cbn. rewrite Hv. cbn. split; reflexivity.
+Qed.
+
+Lemma wire_validate_panic_needs_recover (val : hdr -> valres) (ver : hdr -> verres) (w : waitres) (h : hdr) :
+  val h = ValPanic ->
+  r_out (verify_body val ver w (Msg VdNone (DecOk h))) = SPanic.
+Proof. intros Hv. unfold verify_body, extract_header. cbn. rewrite Hv. reflexivity. Qed.
